@@ -302,6 +302,11 @@ func parse(b []byte, strict *[]string) (*Parsed, *Reject) {
 		case "primary", "manifest":
 			u, rj := sc.str(s.Name+".url", 3)
 			if rj != nil {
+				// "manifest" is not a section of b2 and "primary" not one of b1: a reader may
+				// treat such a section as unknown and step over it, so its content binds nothing
+				if (s.Name == "manifest") != (p.Version == "b1") {
+					continue
+				}
 				return nil, rj
 			}
 			if s.Name == "primary" {
